@@ -130,6 +130,9 @@ def cases(tier, seed):
     for k in range(6000 if tier == "quick" else 60000):
         i += 1
         yield {"id": i, "fam": "rand", "seed": base + k}
+    for k in range(800 if tier == "quick" else 8000):
+        i += 1
+        yield {"id": i, "fam": "rand", "seed": base + 9_000_000 + k, "api": True}
 
 
 def setup_worker():
@@ -146,7 +149,8 @@ def execute(g, script):
 
     L = v2h.load()
     L["random"].reset(script=script, default_first=True)
-    st = v2h.mk(g["src"])
+    api = v2h.ApiSession(g["src"]) if g.get("api") else None
+    st = api.st if api is not None else v2h.mk(g["src"])
     flows = g["flows"]
     obs = []
     ev1 = g["event"]
@@ -164,7 +168,11 @@ def execute(g, script):
             f0 = cand[0]
             for p in PARAMS:
                 ev[p] = 99 if (p == f0["S"][0]) else VAL[p]
-        out = v2h.run(st, dict(ev))
+        if api is not None:
+            out = api.run(dict(ev))
+            st = api.st
+        else:
+            out = v2h.run(st, dict(ev))
         starts = [(e["type"][5:-6], e.get("x")) for e in out if e["type"].startswith("Start") and e["type"].endswith("Action")]
         obs.append({"event": ev, "second": ev.get("a") == 99 or ev.get("b") == 99 or ev.get("c") == 99, "waiting_before": sorted(waiting), "starts": starts, "status": {f["i"]: _status(st, f) for f in flows}})
     return obs, list(L["random"].log)
@@ -238,8 +246,10 @@ def run_case(case):
         g = gen_program(rng, flows)
     else:
         g = gen_program(rng)
+    if case.get("api"):
+        g["api"] = True  # driven through RuntimeV2_x.process_events (outgoing events fed back as input)
     flows = g["flows"]
-    base = {"key": g["src"], "sample": {"program": g["src"], "event": g["event"]}}
+    base = {"key": g["src"] + ("#api" if case.get("api") else ""), "sample": {"program": g["src"], "event": g["event"], "through_process_events": bool(case.get("api"))}}
     loops = {}
     for f in flows:
         loops.setdefault(f["loop"] or "", []).append(f)
